@@ -1,6 +1,6 @@
 ---------------------------- MODULE EcLayoutTrace ----------------------------
 (* Judge for C06.  One execution = one data file: reset (block sizes, dat size n, content key),
-   encode, then reads / rebuilds / decode in any order.  large = small = 0 in the reset line
+   encode, then reads / rebuilds / decode / mount + needle reads in any order.  large = small = 0 in the reset line
    means the production block sizes (1 GiB / 1 MiB, beyond TLC's integers): layer A needs no
    block arithmetic, only Dat. *)
 EXTENDS EcLayout, TraceKit
@@ -9,7 +9,7 @@ tvars == <<vars, kitvars>>
 TraceInit == Init /\ KitInit
 TraceReset == /\ IsReset
               /\ L' = Ev.large /\ S' = Ev.small /\ n' = Ev.n /\ ka' = Ev.ka /\ kb' = Ev.kb
-              /\ sh' = <<>> /\ dh' = "" /\ UNCHANGED lc
+              /\ sh' = <<>> /\ dh' = "" /\ ex' = <<>> /\ UNCHANGED lc
 TraceSkip == SkipStep /\ UNCHANGED vars
 TEncode == /\ IsEvent("encode") /\ Strict
            /\ Encode(Ev.err, Ev.hashes, Ev.dat)
@@ -20,7 +20,16 @@ TReads == /\ IsEvent("reads")
           /\ \/ Strict /\ Reads(Ev.off, Ev.sizes, Ev.errs, Ev.got)
              \/ Deviate("C06-locate-window") /\ L > 0 /\ InWindow /\ sh # <<>> /\ UNCHANGED vars
 TRebuild == IsEvent("rebuild") /\ Strict /\ Rebuild(Ev.lost, Ev.err, Ev.after)
-TDecode == IsEvent("decode") /\ Strict /\ Decode(Ev.size, Ev.err, Ev.hash)
-TraceNext == TraceReset \/ TraceSkip \/ TEncode \/ TReads \/ TRebuild \/ TDecode
+(* C06-decode-exact-multiple (fixed in the tree): with the original WriteDatFile a data file of
+   exactly k x 10 GiB comes back with its last 10 GiB permuted.  Only the huge files (unit = MiB,
+   production block sizes) can show it. *)
+TDecode == /\ IsEvent("decode")
+           /\ \/ Strict /\ Decode(Ev.size, Ev.err, Ev.hash)
+              \/ /\ Deviate("C06-decode-exact-multiple")
+                 /\ L = 0 /\ Ev.unit = 1048576 /\ Ev.size = n /\ n > 0 /\ n % 10240 = 0
+                 /\ sh # <<>> /\ Ev.err = "" /\ UNCHANGED vars
+TMount == IsEvent("mount") /\ Strict /\ Mount(Ev.needles, Ev.err)
+TNeedle == IsEvent("needle") /\ Strict /\ Needle(Ev.id, Ev.err, Ev.off, Ev.asize, Ev.got)
+TraceNext == TraceReset \/ TraceSkip \/ TEncode \/ TReads \/ TRebuild \/ TDecode \/ TMount \/ TNeedle
 TraceSpec == TraceInit /\ [][TraceNext]_tvars
 =============================================================================
